@@ -20,7 +20,7 @@ def element(sym):
 
 
 class Calls(list):
-    pass
+    earlier = frozenset()
 
 
 def provider(rates, calls):
@@ -101,23 +101,49 @@ def provider(rates, calls):
     return A()
 
 
-def plasma(rec, vel=None):
+_REFILL = {}
+ELSEWHERE = (-1.0, 0.2, 0.3)       # for the "point" prior: the plasma has other values in the half space x < 0
+
+
+def _profile(value, elsewhere, stepped):
+    from cherab.core.math import Constant3D
+    if not stepped:
+        return Constant3D(value)
+    from raysect.core.math.function.float.function3d.autowrap import PythonFunction3D
+    return PythonFunction3D(lambda x, y, z: elsewhere if x < -0.5 else value)
+
+
+def fill(p, rec, vel=None, stepped=False):
+    """give plasma p the electron distribution and composition of the record (stepped: other values where x < -0.5)"""
     from raysect.core import Vector3D
-    from cherab.core import Plasma, Species
+    from cherab.core import Species
     from cherab.core.distribution import Maxwellian
-    from cherab.core.math import Constant3D, ConstantVector3D
-    p = Plasma()
+    from cherab.core.math import ConstantVector3D
     zero = ConstantVector3D(Vector3D(0, 0, 0))
-    p.electron_distribution = Maxwellian(Constant3D(rec["ne"] * nu(rec)), Constant3D(float(rec["te"])), zero, 9.1093837015e-31)
-    p.b_field = ConstantVector3D(Vector3D(0, 3.0, 4.0))
+    p.electron_distribution = Maxwellian(_profile(rec["ne"] * nu(rec), 1.0 * nu(rec), stepped), _profile(float(rec["te"]), 7.0, stepped), zero, 9.1093837015e-31)
     sp = []
     for s, d in rec["dens"].items():
         if d == -9:
             continue
         sym, q, _ = rec["species"][s]
         v = ConstantVector3D(Vector3D(*(vel or {}).get(s, (0, 0, 0))))
-        sp.append(Species(element(sym), q, Maxwellian(Constant3D(d * nu(rec)), Constant3D(float(rec["temp"][s])), v, MASS[sym] * AMU)))
+        sp.append(Species(element(sym), q, Maxwellian(_profile(d * nu(rec), 3.0 * nu(rec), stepped), _profile(float(rec["temp"][s]), 5.0, stepped), v, MASS[sym] * AMU)))
     p.composition = sp
+
+
+def plasma(rec, vel=None):
+    from raysect.core import Vector3D
+    from cherab.core import Plasma
+    from cherab.core.math import ConstantVector3D
+    p = Plasma()
+    p.b_field = ConstantVector3D(Vector3D(0, 3.0, 4.0))
+    prior = rec.get("prior", "none")
+    if prior == "mutated":
+        # the plasma object first holds other distributions and every species; prior_phase() gives it the record's afterwards
+        fill(p, dict(rec, ne=1, te=7, dens={s: 3 for s in rec["dens"]}, temp={s: 5 for s in rec["temp"]}), vel)
+        _REFILL[id(p)] = lambda: fill(p, rec, vel)
+    else:
+        fill(p, rec, vel, stepped=(prior == "point"))
     return p
 
 
@@ -137,9 +163,26 @@ def other_plasma(rec):
     return plasma(dict(rec, ne=1, te=7, dens={s: 3 for s in rec["dens"]}, temp={s: 5 for s in rec["temp"]}))
 
 
-def prior_phase(rec, rates, model, evaluate, calls, ad, pl, beam=None):
+def prior_phase(rec, rates, model, evaluate, calls, ad, pl, beam=None, evaluate_elsewhere=None):
     """Bind the model to the prior provider / plasma, evaluate once (exceptions ignored), then bind to (ad, pl)."""
     prior = rec.get("prior", "none")
+    if prior in ("point", "mutated"):
+        try:
+            (evaluate_elsewhere if prior == "point" else evaluate)()
+        except Exception:          # noqa: BLE001
+            pass
+        if prior == "mutated":
+            if beam is not None:
+                beam.length = beam.length * 1.5       # the beam rebuilds its geometry and re-attaches its models
+                try:
+                    evaluate()                        # ... and is observed again before the plasma changes
+                except Exception:      # noqa: BLE001
+                    pass
+            _REFILL.pop(id(pl))()
+        # same provider throughout: coefficients fetched during the earlier evaluation may legitimately be kept
+        calls.earlier = {tuple(x) for x in calls if x[0] not in ("eval", "wavelength")}
+        del calls[:]
+        return
     if prior == "provider":
         model.atomic_data = provider(other_rates(rates), Calls())
         if beam is not None:
